@@ -50,10 +50,38 @@ func (ck *checker) familyPlants(maxN int) {
 						vectors := [][]Kind{uniform(KLocal), uniform(KNamed), with(KRemote, into, KNamed), with(KBoth, from, KNamed)}
 						if n == 4 {
 							vectors = vectors[1:2]
+						} else if n == 3 && r.Quick() {
+							// quick: the unnamed and the local+pinned variants stay at n <= 2
+							vectors = vectors[1:3]
 						}
 						for _, ks := range vectors {
 							s := newSpec(g, ks, v2)
 							s.DupFrom, s.DupInto = from, into
+							if ok, _ := s.valid(); !ok {
+								ck.c.filtered.Add(1)
+								continue
+							}
+							items = append(items, plantItem{s})
+						}
+					}
+				}
+				// duplicate well-known-type path: module w provides wktProvPath and is imported through it alone
+				// (family W), module `into` holds a copy of that file
+				for w := 0; w < n; w++ {
+					if inDegree(g, w) == 0 {
+						continue
+					}
+					for into := 0; into < n; into++ {
+						if into == w {
+							continue
+						}
+						vectors := [][]Kind{uniform(KNamed), with(KRemote, into, KNamed), with(KRemote, w, KNamed), uniform(KLocal)}
+						if n == 4 || (n == 3 && r.Quick()) {
+							vectors = vectors[:1]
+						}
+						for _, ks := range vectors {
+							s := newSpec(g, ks, v2)
+							s.WKTProv, s.DupFrom, s.DupInto, s.DupWKT = w, w, into, true
 							if ok, _ := s.valid(); !ok {
 								ck.c.filtered.Add(1)
 								continue
@@ -67,6 +95,8 @@ func (ck *checker) familyPlants(maxN int) {
 					vectors := [][]Kind{uniform(KLocal), uniform(KNamed), with(KBoth, in, KNamed)}
 					if n == 4 {
 						vectors = vectors[1:2]
+					} else if n == 3 && r.Quick() {
+						vectors = vectors[1:3]
 					}
 					for _, ks := range vectors {
 						s := newSpec(g, ks, v2)
@@ -112,15 +142,9 @@ func (ck *checker) familyPlants(maxN int) {
 func (ck *checker) checkPlant(ctx context.Context, b *Built, t Target) {
 	s := b.Spec
 	dup := s.DupFrom >= 0
-	// the module whose own file imports the ambiguous path, the ambiguous path, the file importing it
-	culprit, want, label := s.MissingIn, "import-not-exist", "missing"
-	neededFile := ""
-	if dup {
-		culprit, want, label = s.DupFrom, "duplicate", "dup"
-		neededFile = aPath(s.DupFrom)
-	} else {
-		neededFile = bPath(s.MissingIn)
-	}
+	// the modules whose own file imports the ambiguous path, the file that makes an image need it
+	pl, _ := s.plant()
+	want, label, neededFile := pl.class, pl.label, pl.neededFile
 	ws, err := b.workspace(ctx, t)
 	if err != nil {
 		// reporting the ambiguity already when the workspace is opened is fine too
@@ -130,10 +154,13 @@ func (ck *checker) checkPlant(ctx context.Context, b *Built, t Target) {
 		return
 	}
 	ck.c.workspaces.Add(1)
-	affected := func(i int) bool { return i == culprit || s.G.reach(i)[culprit] }
+	affected := func(i int) bool { return pl.affected(s.G, i) }
 	for i := range s.Kinds {
 		if !affected(i) {
 			continue
+		}
+		if s.DupWKT {
+			ck.c.dupWKTDemands.Add(1)
 		}
 		m := ws.GetModuleForOpaqueID(s.modID(i))
 		if m == nil {
@@ -157,7 +184,7 @@ func (ck *checker) checkPlant(ctx context.Context, b *Built, t Target) {
 	}
 	// DAG
 	in := s.closure(t)
-	if in[culprit] {
+	if pl.inClosure(in) {
 		anyCycle := false
 		for i, x := range in {
 			if x && s.G.onCycle(i) {
